@@ -73,11 +73,21 @@ def h_generic_d2(ctx, n1, r, n2, is_eigh, use_stab, with_cap):
     ctx.canary('canary', ctx.eq(err2, tails[0] + 1))
 
 
-def h_quasi(ctx, d, n, is_eigh, use_stab, with_cap):
+def h_quasi(ctx, d, n, is_eigh, use_stab, with_cap, shift=0, lead=False):
     """Super-diagonal TT with symbolic positive weights: all factorisations in
-    closed form, so d >= 3, thresholds, caps and the mode flag run end to end."""
-    Y, W = quasi_diag_tt(ctx, d, n)
+    closed form, so d >= 3, thresholds, caps and the mode flag run end to end.
+    shift != 0: permuted bond gauge (non-symmetric core unfoldings); lead: an
+    extra leading core of TT-rank 1 carrying a symbolic factor u."""
+    Y, W = quasi_diag_tt(ctx, d, n, shift=shift)
+    u = None
+    if lead:
+        u = ctx.real('u')
+        ctx.assume(ctx.gt(u, 0))
+        L = zeros(ctx, (1, n, 1))
+        L[0, 0, 0] = u
+        Y = [L] + Y
     Y0 = [G.copy() for G in Y]
+    dd = len(Y)
     e = ctx.real('e')
     ctx.assume(ctx.gt(e, 0))
     ctx.assume(ctx.lt(e, 1))
@@ -85,14 +95,14 @@ def h_quasi(ctx, d, n, is_eigh, use_stab, with_cap):
     if with_cap:
         ctx.assume(ctx.ge(cap, 1))
     Z = teneva.truncate(Y, e, cap if with_cap else 1.E+12, use_stab=use_stab, is_eigh=is_eigh)
-    ctx.claim('well_formed', well_formed(Z, [n] * d))
+    ctx.claim('well_formed', well_formed(Z, [n] * dd))
     ctx.claim('finite', finite(ctx, Z))
     ranks = [G.shape[2] for G in Z[:-1]]
-    ctx.claim('rank_le_input', all(q <= n for q in ranks))
-    # entries a_i = prod_k w_{k,i}; every unfolding has singular values {a_i}
+    ctx.claim('rank_le_input', all(q <= G.shape[2] for q, G in zip(ranks, Y0)))
+    # entries a_i = (u) prod_k w_{k,i}; every unfolding right of the leading core has singular values {a_i}
     a = [None] * n
     for i in range(n):
-        p = ctx.const(1)
+        p = ctx.const(1) if u is None else u
         for k in range(d):
             p = p * W[k][i]
         a[i] = p
@@ -102,16 +112,20 @@ def h_quasi(ctx, d, n, is_eigh, use_stab, with_cap):
     srt = sorted(range(n), key=lambda i: _Key(ctx, a[i]), reverse=True)
     sa = [a[i] for i in srt]
     tails = [sum((x * x for x in sa[j:]), ctx.const(0)) for j in range(n + 1)]
-    budget = e * e * nrm2 / (d - 1)          # (e ||Y|| / sqrt(d-1))^2
-    for q in ranks:
+    lead_tails = [nrm2, ctx.const(0)]               # bond behind the leading core: one singular value ||Y||
+    budget = e * e * nrm2 / (dd - 1)         # (e ||Y|| / sqrt(d-1))^2
+    btails = []
+    for b, q in enumerate(ranks):
+        tl = lead_tails if (lead and b == 0) else tails
+        btails.append(tl)
         if with_cap:
             ctx.claim('cap', ctx.any_([q == 1, ctx.le(q, cap)]))
-        ok = ctx.any_([q == 1] + [ctx.all_([ctx.le(tails[j], budget), q <= max(1, j)]) for j in range(n + 1)])
+        ok = ctx.any_([q == 1] + [ctx.all_([ctx.le(tl[j], budget), q <= max(1, j)]) for j in range(len(tl))])
         ctx.claim('rank_quasi_optimal', ok)
     cap_binds = ctx.any_([ctx.eq(cap, q) for q in ranks]) if with_cap else False
     ctx.claim('error_bound_or_cap', ctx.any_([ctx.le(err2, e * e * nrm2), cap_binds]))
     # never worse than the root-sum-square of the best errors at the returned ranks
-    rss = sum((tails[q] for q in ranks), ctx.const(0))
+    rss = sum((tl[min(q, len(tl) - 1)] for q, tl in zip(ranks, btails)), ctx.const(0))
     ctx.claim('error_le_rss_of_best', ctx.le(err2, rss))
     ctx.claim('argument_untouched', all(bool(ctx.all_eq(x, y)) for x, y in zip(Y, Y0)))
 
@@ -173,6 +187,21 @@ def instances(tier):
                         # LAPACK sign conventions fixed to +1 in the quick tier (thorough: symbolic signs)
                         inst['opts'] = {'symbolic_signs': False}
                     out.append(inst)
+    # permuted bond gauge (non-symmetric square unfoldings) and a leading rank-1 bond
+    for is_eigh in (True, False):
+        inst = {'func': 'h_quasi', 'params': {'d': 3, 'n': 2, 'is_eigh': is_eigh, 'use_stab': False, 'with_cap': False,
+                                               'shift': 1, 'lead': False}}
+        inst2 = {'func': 'h_quasi', 'params': {'d': 2, 'n': 2, 'is_eigh': is_eigh, 'use_stab': False, 'with_cap': False,
+                                                'shift': 0, 'lead': True}}
+        inst3 = {'func': 'h_quasi', 'params': {'d': 3, 'n': 2, 'is_eigh': is_eigh, 'use_stab': True, 'with_cap': True,
+                                                'shift': 1, 'lead': True}}
+        for it in ((inst, inst2) if quick else (inst, inst2, inst3)):
+            if not is_eigh:
+                it['opts'] = {'symbolic_signs': False}
+            out.append(it)
+    if not quick:
+        out.append({'func': 'h_quasi', 'params': {'d': 3, 'n': 3, 'is_eigh': True, 'use_stab': False, 'with_cap': True,
+                                                   'shift': 1, 'lead': False}})
     for n, tf in ([(2, 1), (2, 15)] if quick else [(2, 1), (2, 15), (3, 1), (3, 2)]):
         out.append({'func': 'h_add_many', 'params': {'n': n, 'trunc_freq': tf}})
     return out
